@@ -173,6 +173,7 @@ pub fn run_batch(ctx: &mut Ctx, calls: &[Call], start_data: Vec<u8>, start_offs:
             }
         };
         ctx.count("calls-checked");
+        ctx.evals += 1;
         let plen = before_d.len();
         let mut bad = false;
         if data.len() < plen || data[..plen] != before_d[..] {
